@@ -32,6 +32,8 @@ def starts(tr):
 
 class C08(Prop):
     id = 'C08'
+    k2_mask = {('ind', 'prio'), ('ind', 'pprio'), ('ind', 'arr'), ('ind', 'sst'), ('ind', 'server'), ('node', 'queues')}      # the slice of the engine state / records this property reads (DESIGN 7, table of slices)
+    k2_frames = 40
     num = 8
     regions = {'quick': [('core', 120), ('block', 80), ('routers', 40), ('renege', 50), ('preempt', 70), ('sched', 50),
                          ('schedpre', 40), ('slotted', 40), ('dyn', 50), ('all', 40)]}
